@@ -54,6 +54,16 @@ def norm_floats(s):
     return re.sub(r'\(float "([^"]*)"\)', f, s)
 
 
+def num_norm(s):
+    """numeric literals by value: (int N) and (float "text") become (num value)"""
+    from .c16 import js_number
+    def f(m):
+        v = js_number(m.group(1))
+        return '(num %r)' % v if v is not None else m.group(0)
+    s = re.sub(r'\(int (-?[0-9]+)\)', f, s)
+    return re.sub(r'\(float "([^"]*)"\)', f, s)
+
+
 def canon(v):
     """canonical comparison form of an encoded value (functions by name, objects keyed in order)"""
     return json.dumps(v, sort_keys=False)
@@ -126,6 +136,28 @@ def run(chk):
             gen_reqs.append(core.req("expr_gen", key, "1:1"))
             gen_idx.append(i)
     chk.bump("oracle:parser-tree-equals-intended", len(cases))
+
+    # (1b) the token-level parser model (GE/Model/ExprParse.lean: lexer + precedence levels) vs the real parser, on the same sources and on the literal stream
+    psrcs = [s for (_, s, _) in cases] + [f % ((l,) * f.count("%s")) for l in LITERALS for f in ("%s", "-%s", "[%s][0]", "%s.p", "f(%s,)")]
+    preal = real + core.run_harness([core.req("expr", s_, "1:1", "0") for s_ in psrcs[len(cases):]])
+    pmodel = core.run_driver([core.req("wparse", s_) for s_ in psrcs])
+    valid = set(s for (_, s, _) in cases)
+    if core.MODEL_OK and pmodel:
+        nd = 0
+        for s_, a, m in zip(psrcs, preal, pmodel):
+            ra = a.split("\t")[0]
+            if a.startswith("PANIC"):
+                continue
+            got_r = "none" if ra == "none" else num_norm(core.unesc(ra)).replace("(scope 0)", '(data "s0")')
+            if got_r == "none" and s_ not in valid:
+                continue        # a spelling WXML does not have (08, 0o17): the model's number reader is not in question here
+            got_m = m if m in ("none", "lex-error") else num_norm(core.unesc(m))
+            if got_r != got_m and not (got_r == "none" and got_m == "lex-error"):
+                nd += 1
+                if nd <= 5:
+                    chk.violation("correspondence", f"expression parser: model reads {got_m[:120]!r}, implementation {got_r[:120]!r}", stream="wparse", src=s_, real=got_r, model=got_m)
+        chk.bump("corr:wparse:cases", len(psrcs))
+        chk.bump("corr:wparse:diffs", nd)
 
     # (2) model vs implementation: value, hoisted statements, above_cond flag
     model = core.run_driver(gen_reqs)
